@@ -909,6 +909,14 @@ func (h *hist) paramsOp(op MOp) bool {
 	w := h.w
 	p := w.App.TunnelKeeper.GetParams(w.Ctx())
 	p.MinDeposit, p.BasePacketFee = toSDK(op.NewMin), toSDK(op.NewFee)
+	if h.rng.Chance(1, 3) {
+		// the same change as part of a proposal whose later message fails: executed on a branch that is dropped. The
+		// committed parameters - and what the module enforces - stay what they were (the model is not touched)
+		if err := w.AuthorityRolledBack(tunneltypes.NewMsgUpdateParams(sim.GovAddr().String(), p)); err == nil {
+			h.run.Count("param-change-executed-then-rolled-back", 1)
+		}
+		return h.checkState("after rolled-back params " + op.String())
+	}
 	_, err := w.Authority(tunneltypes.NewMsgUpdateParams(sim.GovAddr().String(), p))
 	msg := ""
 	if err != nil {
@@ -1639,7 +1647,7 @@ func main() {
 		"end-block:inactive-tunnel-left-alone", "walk:module-balance-compared-with-nonzero-fees",
 		"rejected-tx-byte-identical-state:withdraw", "rejected-tx-byte-identical-state:activate", "rejected-tx-byte-identical-state:deposit",
 		"rejected-tx-byte-identical-state:create", "exact-amount-moved:withdraw", "exact-amount-moved:deposit",
-		"blocks:multi-tx", "histories-with-poor-accounts", "histories:ibc", "histories:tss-nogroup", "histories:tss-live", "histories:mixed-live",
+		"blocks:multi-tx", "histories-with-poor-accounts", "param-change-executed-then-rolled-back", "histories:ibc", "histories:tss-nogroup", "histories:tss-live", "histories:mixed-live",
 	} {
 		run.Require(c, 1)
 	}
